@@ -756,8 +756,13 @@ def flow_prepare_event_data(event: TraceEvent, _: AbstractContext) -> list[Trace
     if event["ph"] in "Xbe" and "args" in event:
 
         # unify name variability (Recv,Receive|RDMA Rdma)
+        peer_union = event["args"].get(_KEY_PEER) if "Peer" in event["args"] else None
         event = event_updates(event)
         flow_extraction_event = copy.deepcopy(event)
+        if isinstance(peer_union, list):
+            # a summarized communication sequence keeps the union of its parts' peers on the exported slice;
+            # its flows are still matched on the peer of the part that carries the sequence
+            event["args"][_KEY_PEER] = peer_union
 
         name = flow_extraction_event["name"]
 
